@@ -176,6 +176,7 @@ def case_strategy():
         gen_cfg.model_and_spec(force=['many_ports', 'inout_mix'], want_mixed=True),
         gen_cfg.model_and_spec(want_mc=True, force=['many_ports'], want_mixed=True),
         gen_cfg.model_and_spec(force=['out_many_formals', 'shared_itf', 'many_ports']),
+        gen_cfg.model_and_spec(force=['ref_extern', 'out_many_formals', 'many_ports'], want_mixed=True),
         gen_cfg.model_and_spec(force=['many_ports'], want_mixed=True, explicit=True),
         gen_cfg.model_and_spec())
 
